@@ -38,6 +38,9 @@ func c12Images(tier string) []c12Image {
 		// small records deep inside a 32 KiB block (a damaged chunk length can reach beyond the block there)
 		{Name: "deep-in-block", Cfg: blk, Trace: "put b F 20000; put a S; put b S; put a F 9000; put b S; put a S"},
 		{Name: "multi-chunk", Cfg: blk, Trace: "put a S; put b M; put a S; put b B 3; put a S"},
+		// files of five blocks (one 150 000-byte value): whole blocks zeroed in the middle, data behind them
+		{Name: "five-blocks-active", Cfg: megCfg(1 << 20), Trace: "put a S; put b F 150000; put a S; put b S"},
+		{Name: "five-blocks-older", Cfg: megCfg(200000), Trace: "put a S; put b F 150000; put a S; put b F 100000"},
 		// the active file spans two blocks: damage in its first block is not a torn tail
 		// a LIVE record of three chunks (and a record behind it) in a file that is no longer the active one
 		{Name: "older-multi-chunk-live", Cfg: blk, Trace: "put a S; put b M; put a S; put a F 40000"},
@@ -58,6 +61,12 @@ func c12Images(tier string) []c12Image {
 		)
 	}
 	return imgs
+}
+
+func megCfg(fs int64) Cfg {
+	c := defaultCfg
+	c.FileSize = fs
+	return c
 }
 
 func roomyCfg() Cfg {
@@ -112,6 +121,27 @@ func recordExtents(data []byte) (ext [][2]int, ok bool) {
 	return ext, true
 }
 
+// sigKind: the fault kind used in violation signatures. Two kinds get a name of their own because they are exactly
+// what the open findings KF-4 / KF-5 are about: whole blocks zeroed ("zblocks"), and a block that lies completely
+// inside one record replaced by another such block of the SAME record ("midswap": both are Middle chunks with valid
+// checksums).
+func (bi *builtImage) sigKind(f fault) string {
+	if f.Kind == "block" && f.Arg >= 0 {
+		inner := func(b int) int {
+			for i, e := range bi.ext[f.File] {
+				if e[0] < b*32768 && (b+1)*32768 < e[1] {
+					return i
+				}
+			}
+			return -1
+		}
+		if a, b := inner(f.Pos), inner(f.Arg); a >= 0 && a == b {
+			return "midswap"
+		}
+	}
+	return f.Kind
+}
+
 // faultClass: how the oracle treats a fault.
 //
 //	"strict":  Open fails, or every key maps to its final value / is reported not found exactly when absent, or the
@@ -145,6 +175,10 @@ func (bi *builtImage) faultClass(f fault) string {
 		if f.Arg == -1 && (f.Pos+1)*32768 >= n && !inside(f.Pos*32768) {
 			return "shorter"
 		}
+	case "zblocks":
+		if (f.Pos+f.Arg)*32768+f.Val >= n && !inside(f.Pos*32768) {
+			return "shorter"
+		}
 	}
 	if f.File == bi.newest {
 		// a cut inside a record IS a torn tail; so is - to any reader - damage in the final block that makes a record
@@ -152,6 +186,12 @@ func (bi *builtImage) faultClass(f fault) string {
 		pos := f.Pos
 		if f.Kind == "block" {
 			pos = f.Pos * 32768
+		}
+		if f.Kind == "zblocks" {
+			pos = (f.Pos+f.Arg)*32768 + f.Val - 1 // the last zeroed byte
+			if pos >= n {
+				pos = n - 1
+			}
 		}
 		if f.Kind == "trunc" || pos/32768 == (n-1)/32768 {
 			return "tail"
@@ -218,7 +258,7 @@ func buildImage(im c12Image) (*builtImage, error) {
 // fault is one single-position fault of one file of the image.
 type fault struct {
 	File string `json:"file"`
-	Kind string `json:"kind"` // flip sub run trunc block
+	Kind string `json:"kind"` // flip sub run trunc block zblocks
 	Pos  int    `json:"pos"`
 	Arg  int    `json:"arg"` // bit / byte value / run length / source block
 	Val  int    `json:"val"` // run fill value
@@ -242,6 +282,10 @@ func applyFault(s *Snap, f fault) *Snap {
 		}
 	case "trunc":
 		data = data[:f.Pos]
+	case "zblocks": // Arg consecutive blocks from block Pos on are zeroed (plus Val further bytes)
+		for i := f.Pos * 32768; i < (f.Pos+f.Arg)*32768+f.Val && i < len(data); i++ {
+			data[i] = 0
+		}
 	case "block":
 		blk := make([]byte, 32768)
 		switch f.Arg {
@@ -308,6 +352,18 @@ func enumFaults(file string, data []byte, dense bool, starts []int, visit func(f
 		}
 	}
 	nb := (n + 32767) / 32768
+	for b := 0; b < nb; b++ {
+		for _, k := range []int{2, 3} {
+			for _, extra := range []int{0, 7, 100} {
+				if (b+k)*32768+extra >= n && !(extra == 0 && (b+k)*32768 >= n && (b+k-1)*32768 < n) {
+					continue // only runs with data behind them, and the one that exactly reaches the end
+				}
+				if !visit(fault{File: file, Kind: "zblocks", Pos: b, Arg: k, Val: extra}) {
+					return
+				}
+			}
+		}
+	}
 	if n >= 32768 {
 		for b := 0; b < nb && (b+1)*32768 <= n; b++ {
 			for _, src := range []int{-1, -2, b - 1, b + 1} {
@@ -527,10 +583,16 @@ func c12Tasks(tier string) []Task {
 							c, d := judgeFaulted(bi, rc, fs, bi.faultClass(f), res)
 							res.Nontrivial++
 							if c != "" {
-								res.Violations = append(res.Violations, Violation{Prop: "C12", Clause: c, Sig: c + ":" + f.Kind,
+								v := Violation{Prop: "C12", Clause: c, Sig: c + ":" + bi.sigKind(f),
 									Detail: fmt.Sprintf("image %q (cfg %s, built by [%s]), opened as %s, fault %s\n%s", im.Name, im.Cfg, im.Trace, rc, f, d),
-									Replay: mustJSON(map[string]any{"engine": "corrupt", "property": "C12", "image": im.Name, "fault": f, "reader_io": rc.IO})})
-								stop = len(res.Violations) >= 2
+									Replay: mustJSON(map[string]any{"engine": "corrupt", "property": "C12", "image": im.Name, "fault": f, "reader_io": rc.IO})}
+								if isKnown(&v) {
+									addViolation(res, &v) // one per signature; the enumeration goes on
+									res.count("known_suppressed", 1)
+									continue
+								}
+								res.Violations = append(res.Violations, v)
+								stop = len(res.Violations) >= 4
 								return !stop
 							}
 						}
